@@ -254,7 +254,8 @@ class Dirfile:
         if kind == 'window':
             op = rng.choice(['eq', 'ge', 'gt', 'le', 'lt', 'ne', 'set', 'clr'])
             if op in ('eq', 'ne', 'set', 'clr'):
-                chk = self.vec(depth, lambda f: f['kind'] == 'raw' and f['ty'] in ('i8', 'u8', 'i16', 'u16', 'i32', 'u32') or f['kind'] in ('bit',))
+                # (a BIT field wider than 48 bits is not used as the check field: the executable model carries values as doubles)
+                chk = self.vec(depth, lambda f: f['kind'] == 'raw' and f['ty'] in ('i8', 'u8', 'i16', 'u16', 'i32', 'u32') or (f['kind'] in ('bit',) and int(f['deff'].split()[-1]) <= 48))
                 if chk is None:
                     return None
                 thr = rng.randint(0, 12) if op in ('set', 'clr') else rng.randint(-3, 12)
